@@ -105,7 +105,7 @@ def run(ctx):
             nd = r.choice([2, 3])
             names = ["density"] + ["velocity_" + c for c in "xyz"[:nd]] + ["B_" + c + "_left" for c in "xyz"[:nd]] + ["density_max", "xray_flux"] + (
                 # component letter followed by another x later in the name (momentum_x_flux, B_x_max): every x is a candidate position
-                ["momentum_" + c + "_flux" for c in "xyz"[:nd]] if r.random() < 0.6 else ["B_" + c + "_max" for c in "xyz"[:nd]])
+                ["momentum_" + c + "_flux" for c in "xyz"[:nd]] + (["B_" + c + "_max" for c in "xyz"[:nd]] if r.random() < 0.5 else []))
             kw = {"ndim": nd, "hydro_vars": names, "exact": False}
             exact = False
         if i % 9 == 1:
